@@ -69,7 +69,10 @@ func cmdContinue(p *lang.Process) error {
 	scope := p.Scope.Id
 	proc := p.Parent
 	for {
-		if proc.Name.String() == name {
+		// only a block that encloses this `continue` can be its target: a later
+		// statement of the same name (eg a second `foreach` further down the
+		// loop body) is just another statement to skip
+		if proc.Name.String() == name && encloses(proc, p) {
 			return nil
 		}
 		if proc.Id == scope {
@@ -81,5 +84,17 @@ func cmdContinue(p *lang.Process) error {
 
 		proc.Done()
 		proc = proc.Next
+	}
+}
+
+// encloses reports whether block is p's parent, grandparent, etc
+func encloses(block, p *lang.Process) bool {
+	for proc := p.Parent; ; proc = proc.Parent {
+		if proc == block {
+			return true
+		}
+		if proc.Id == p.Scope.Id || proc.Parent == proc {
+			return false
+		}
 	}
 }
